@@ -284,7 +284,7 @@ def check_interleavings(run: Run, stream, xml):
 def check(run: Run, lean: dict) -> int:
     n = 6 if run.tier == "quick" else 120
     run.extra["rule"] = (
-        "3 seed documents (+ generated ones in the thorough tier) x 8 ambient settings (default, none, tag, text, comment, "
+        "4 seed documents + generated ones (6 quick / 40 thorough) x 8 ambient settings (default, none, tag, text, comment, "
         "custom predicate, nested, hide-everything) x {serialize plain/pretty/wrapped, str(document), xpath, css_select, "
         "location_path, depth, ancestors, document, `in`, clone, detach, detach(retain), merge_text_nodes, reduce_whitespace} "
         "compared across settings with stack/tree/identity checks; plus random schedules over 12 iterator kinds "
@@ -295,8 +295,8 @@ def check(run: Run, lean: dict) -> int:
             print(f"KNOWN-FINDING: property=C08 {f['key']}: {f['description']}")
             run.known_hit.append(f["key"])
     docs = list(DOCS)
-    if run.tier == "thorough":
-        for _ in range(40):
+    for _ in range(40 if run.tier == "thorough" else 6):
+        if True:
             t = trees.gen_tree(run.rng, max_depth=3, max_kids=4, nss=["", "", "urn:x"], p_comment=0.2, p_pi=0.1,
                                text=lambda g: trees.gen_text(g, ws_prob=0.1, words=["t", "uv"]), attrs=False)
             docs.append(trees.to_xml(t))
